@@ -115,6 +115,10 @@ def match(pid, fail):
             and fail.get("explained_by_repaired_build") is True:
         # the case passes on a build in which exactly that defect is repaired (vf/rawwire.py)
         return "raw-swap-inner-part-overaligned"
+    if pid == "C12" and fail.get("check") == "legality" and fail.get("label") in ("struct named E", "enum named E") \
+            and "s.ppf.cpp does not compile" in what:
+        # the generated full-codec source declares `template <endianness E>`: a type called E collides with it
+        return "cpp-full-type-named-E"
     if pid == "C14" and fail.get("check") == "expr" and str(fail.get("context", "")).startswith("isar -> c++"):
         # the same raw text read by the C++ compiler: explained only if C/C++
         # operator precedence gives exactly what was observed (or no constant
